@@ -552,7 +552,7 @@ func c03prop(ev *evid.Rec) func(rt *rapid.T) {
 					if tgt.Login(hlsim.LoginOpts{Login: "spare", Password: "spw", Name: []byte("kick-me"), Icon: 1}) != nil {
 						if us, err := sentinel.UserList(); err == nil {
 							for _, u := range us {
-								if string(u.Name) == "kick-me" {
+								if string(u.Name) == "Spare" { // (the account may not choose its name: it goes by the account's)
 									in[0].c.Send(hlref.Tran{Type: hlref.TranDisconnectUser, ID: 0x6b69636b, Fields: []hlref.Field{fld(hlref.FUserID, hlref.BE16(u.ID))}}.Encode())
 								}
 							}
